@@ -3,6 +3,7 @@ import numpy as np
 import scipy.stats as ss
 from common import *
 from graphgen import *
+from graphgen import _canon_kwargs
 
 
 class Col:
@@ -22,6 +23,180 @@ def sym_value(v, cols):
     return v
 
 
+class TA:
+    """The array a recording density returns for a batch: one symbolic term per row.  Supports exactly what the
+    code under test does with a density array: elementwise mul/add (functools.reduce) and val[0]."""
+
+    def __init__(self, rows):
+        self.rows = list(rows)
+
+    def __len__(self):
+        return len(self.rows)
+
+    def __getitem__(self, i):
+        if not isinstance(i, (int, np.integer)):
+            raise TypeError('TA index %r' % (i,))
+        return self.rows[i]
+
+    def _zip(self, other, f):
+        if not isinstance(other, TA) or len(other) != len(self):
+            raise ValueError('TA arithmetic with %r' % (type(other).__name__,))
+        return TA([f(a, b) for a, b in zip(self.rows, other.rows)])
+
+    def __mul__(self, other):
+        return self._zip(other, lambda a, b: a * b)
+
+    def __add__(self, other):
+        return self._zip(other, lambda a, b: a + b)
+
+
+def rowval(v, i):
+    """row i of an argument handed to a recording density: a supplied column, a batch of terms, or a constant"""
+    if isinstance(v, np.ndarray):
+        x = v[i]
+        if float(x) != int(x):
+            raise ValueError('non-integral code %r' % (x,))
+        return int(x)
+    if isinstance(v, TA):
+        return v[i]
+    return v
+
+
+class RowDist(RecDist):
+    """A recording distribution whose densities (and draws) are per-row terms, so that an n-row query can be
+    compared row by row with the Coq model evaluated at the n points.  `name` is the identity of the distribution
+    object, independent of the node that holds it."""
+
+    def _rows(self, tag, x, params, n, kw=()):
+        return TA([T(('app', tag, tuple(rowval(a, i) for a in ((x,) if x is not None else ()) + tuple(params)), kw)) for i in range(n)])
+
+    def rvs(self, *params, size=None, random_state=None):
+        rec = RECORDERS[self.rid]
+        rec.log.append(self.name)
+        kw = _canon_kwargs(rec, self.name, dict(batch_size=int(size[0]), random_state=random_state))
+        return self._rows(self.name, None, params, int(size[0]), kw)
+
+    def pdf(self, x, *params):
+        return self._rows('pdf:' + self.name, x, params, len(x))
+
+    def logpdf(self, x, *params):
+        return self._rows('logpdf:' + self.name, x, params, len(x))
+
+
+POISON = T(('app', 'POISON', (), ()))
+
+
+# ---- specifications of the history modes (pure functions of the spec, shared by generator and driver) ----------
+def spec_children(spec, nm):
+    return [s['name'] for s in spec if nm in s['parents']]
+
+
+def spec_descendants(spec, nm):
+    seen, todo = set(), [nm]
+    while todo:
+        for c in spec_children(spec, todo.pop()):
+            if c not in seen:
+                seen.add(c)
+                todo.append(c)
+    return seen
+
+
+def spec_apply(spec, ed):
+    """the specification after one edit (the reading of the edit the property is checked against)"""
+    spec = [dict(s, parents=list(s['parents'])) for s in spec]
+    byname = {s['name']: s for s in spec}
+    k = ed['op']
+    if k == 'become_prior':
+        byname[ed['name']].update(dist=ed['dist'], parents=list(ed['parents']))
+    elif k == 'become_const':
+        byname[ed['name']].update(value=ed['value'])
+    elif k == 'add_prior':
+        spec.append(dict(name=ed['name'], kind='prior', dist=ed['dist'], parents=list(ed['parents']), value=None))
+    elif k == 'remove':
+        spec = [s for s in spec if s['name'] != ed['name']]
+    else:
+        raise ValueError(k)
+    return spec
+
+
+def spec_topo(spec):
+    done, out, todo = set(), [], list(spec)
+    while todo:
+        ready = [s for s in todo if all(p in done for p in s['parents'])]
+        if not ready:
+            raise ValueError('cyclic specification')
+        for s in ready:
+            out.append(s)
+            done.add(s['name'])
+            todo.remove(s)
+    return out
+
+
+def build_row_model(spec, rec):
+    import elfi
+    m = elfi.ElfiModel(name='m')
+    for nd in spec_topo(spec):
+        ps = [m[p] for p in nd['parents']]
+        if nd['kind'] == 'const':
+            elfi.Constant(nd['value'], name=nd['name'], model=m)
+        elif nd['kind'] == 'prior':
+            elfi.Prior(RowDist(rec, nd['dist']), *ps, name=nd['name'], model=m)
+        else:
+            elfi.Simulator(rec_op(rec, nd['name']), *ps, name=nd['name'], model=m)
+    return m
+
+
+def apply_edit_live(m, ed, rec, tmp):
+    """the same edit through the public API on the live model object"""
+    import elfi
+    k = ed['op']
+    if k == 'become_prior':
+        m[ed['name']].become(elfi.Prior(RowDist(rec, ed['dist']), *[m[p] for p in ed['parents']], name=tmp, model=m))
+    elif k == 'become_const':
+        m[ed['name']].become(elfi.Constant(ed['value'], name=tmp, model=m))
+    elif k == 'add_prior':
+        elfi.Prior(RowDist(rec, ed['dist']), *[m[p] for p in ed['parents']], name=ed['name'], model=m)
+    elif k == 'remove':
+        m.remove_node(ed['name'])
+    else:
+        raise ValueError(k)
+
+
+def close_params(spec, sub):
+    byname = {s['name']: s for s in spec}
+    sub = list(sub)
+    todo = list(sub)
+    while todo:
+        for q in byname[todo.pop()]['parents']:
+            if byname[q]['kind'] == 'prior' and q not in sub:
+                sub.append(q)
+                todo.append(q)
+    return sub
+
+
+def is_closed(spec, sub):
+    byname = {s['name']: s for s in spec}
+    return all(n in byname and byname[n]['kind'] == 'prior' for n in sub) and sorted(close_params(spec, sub)) == sorted(sub)
+
+
+def make_input(shape, data, container):
+    """the object handed to pdf/logpdf: same numbers, several dtypes / layouts / containers"""
+    a = np.array(data, dtype=float).reshape(shape)
+    if container == 'list':
+        return a.tolist()
+    if container == 'int64':
+        return a.astype(np.int64)
+    if container == 'float32':
+        return a.astype(np.float32)
+    if container == 'fortran' and a.ndim >= 2:
+        return np.asfortranarray(a)
+    if container == 'strided' and a.ndim >= 1:
+        big = np.zeros(a.shape[:-1] + (2 * a.shape[-1],))
+        big[..., ::2] = a
+        return big[..., ::2]
+    return a
+
+
 DISTS = {
     'uniform': lambda r: [round(r.uniform(-2, 2), 2), round(r.uniform(0.5, 3), 2)],
     'norm': lambda r: [round(r.uniform(-2, 2), 2), round(r.uniform(0.3, 2), 2)],
@@ -34,8 +209,8 @@ class C08(PropCheck):
     pid = 'C08'
     header = ('From Coq Require Import List String ZArith Bool.\n'
               'From Elfi Require Import Base.Harness Graph.Net Graph.Edit Graph.Prior.\nImport ListNotations.\n')
-    case_type = 'Prior.case'
-    preds = (('Prior.agree', 'agree'), ('Prior.ok', 'ok'))
+    case_type = 'Prior.tcase'
+    preds = (('Prior.agree_t', 'agree'), ('Prior.ok_t', 'ok'))
     chunk = 100
     build_targets = ('Graph/Prior.vo',)
     rule = ('(a) symbolic: random hierarchical models (priors whose arguments are constants or other priors, plus unrelated nodes) '
@@ -48,13 +223,10 @@ class C08(PropCheck):
     trusted = ('scipy.stats densities as oracles for the numeric comparison', 'finite-difference accuracy is not proved (stencil identity is checked exactly)')
 
     def generate(self):
-        n = 160 if self.tier == 'quick' else 2500
+        n = 320 if self.tier == 'quick' else 5000
         r = self.rng
         for i in range(n):
-            if i % 2 == 0:
-                yield self._gen_symbolic(r)
-            else:
-                yield self._gen_numeric(r)
+            yield (self._gen_symbolic, self._gen_numeric, self._gen_history, self._gen_numhist)[i % 4](r)
 
     # ---- symbolic ----------------------------------------------------------------------------------
     def _gen_symbolic(self, r):
@@ -124,7 +296,7 @@ class C08(PropCheck):
         point = clist(['(%s, VConst %s)' % (cstr(p), cz(7000 + i)) for i, p in enumerate(P)])
         coq = ('{| p_model := %s; p_params := %s; p_log := %s; p_augmented := %s; p_point := %s; p_impl := %s |}'
                % (model_snet, clist([cstr(p) for p in P]), cbool(log), aug, point, impl_coq))
-        return dict(mode='symbolic', impl=impl_j, coq=coq, problems=[])
+        return dict(mode='symbolic', impl=impl_j, coq='(Single %s)' % coq, problems=[])
 
     # ---- numeric -----------------------------------------------------------------------------------
     def _gen_numeric(self, r):
@@ -274,18 +446,499 @@ class C08(PropCheck):
                     problems.append('gradient %r != central difference %r of logpdf' % (g.tolist(), fd.tolist()))
         return dict(mode='numeric', problems=problems, order=order, n_points=len(pts))
 
+    # ---- histories, symbolic -----------------------------------------------------------------------
+    CONTAINERS = ['array', 'array', 'array', 'list', 'int64', 'float32', 'fortran', 'strided']
+
+    def _gen_calls(self, r, dim, ncalls):
+        """calls on one object: fresh points, byte-identical data in another shape, exact repeats; some odd shapes"""
+        calls = []
+        prev = None
+        for _ in range(ncalls):
+            u = r.random()
+            log = r.random() < 0.5
+            if prev is not None and u < 0.2:
+                c = dict(prev, container=r.choice(self.CONTAINERS))                    # the same call again
+                if r.random() < 0.3:
+                    c['log'] = log
+                self.bump('hist:repeat')
+            elif prev is not None and u < 0.6:
+                # the same bytes in another shape (same log flag mostly)
+                n = len(prev['data'])
+                if dim == 1:
+                    shapes = [[n], [n, 1]] + ([[]] if n == 1 else [])
+                else:
+                    shapes = [[n // dim, dim]] + ([[dim]] if n == dim else []) if n % dim == 0 else [[n]]
+                shapes = [sh for sh in shapes if sh != prev['shape']] or [prev['shape']]
+                c = dict(log=prev['log'] if r.random() < 0.8 else log, shape=r.choice(shapes), data=list(prev['data']),
+                         container=r.choice(['array', 'array', 'list']) if r.random() < 0.8 else r.choice(self.CONTAINERS))
+                self.bump('hist:same-bytes-other-shape')
+            else:
+                odd = r.random() < 0.1
+                n = r.randint(1, 3)
+                if odd:
+                    shape = r.choice([[2 * dim], [n, 1, dim], [dim + 1], []] if dim > 1 else [[n, 1, 1], [1, n]])
+                    self.bump('hist:odd-shape')
+                elif dim == 1:
+                    shape = r.choice([[], [n], [n, 1], [1], [1, 1]])
+                else:
+                    shape = r.choice([[dim], [n, dim], [1, dim]])
+                size = int(np.prod(shape)) if shape else 1
+                c = dict(log=log, shape=shape, data=[7000 + r.randrange(5) for _ in range(size)], container=r.choice(self.CONTAINERS))
+            c['poison'] = r.random() < 0.4
+            self.bump('hist:shape-ndim=%d' % len(c['shape']))
+            self.bump('hist:container=%s' % c['container'])
+            calls.append(c)
+            prev = c
+        return calls
+
+    def _gen_edit(self, r, spec, counter):
+        priors = [s for s in spec if s['kind'] == 'prior']
+        consts = [s for s in spec if s['kind'] == 'const']
+        u = r.random()
+        used = {s['name'] for s in spec}
+        if u < 0.5 and priors:
+            p = r.choice(priors)
+            bad = spec_descendants(spec, p['name']) | {p['name']}
+            cands = [s['name'] for s in spec if s['kind'] in ('const', 'prior') and s['name'] not in bad]
+            if r.random() < 0.35:
+                parents = list(p['parents'])            # only the distribution object changes
+                if r.random() < 0.5 and len(parents) > 1:
+                    r.shuffle(parents)                  # ... or the order of its arguments
+            else:
+                parents = r.sample(cands, r.randint(0, min(3, len(cands))))
+            return dict(op='become_prior', name=p['name'], dist='%s_v%d' % (p['name'], counter) if r.random() < 0.8 else p['dist'],
+                        parents=parents)
+        if u < 0.7 and consts:
+            return dict(op='become_const', name=r.choice(consts)['name'], value=200 + counter)
+        if u < 0.9 or len(priors) < 2:
+            free = [n for n in NAME_POOL if n not in used]
+            cands = [s['name'] for s in spec if s['kind'] in ('const', 'prior')]
+            return dict(op='add_prior', name=r.choice(free), dist='d%d' % counter, parents=r.sample(cands, r.randint(0, min(2, len(cands)))))
+        leaf = [s for s in priors if not spec_children(spec, s['name'])]
+        if leaf:
+            return dict(op='remove', name=r.choice(leaf)['name'])
+        return dict(op='become_const', name=r.choice(consts)['name'], value=200 + counter) if consts else None
+
+    def _gen_history(self, r):
+        k = r.randint(2, 6)
+        names = r.sample(NAME_POOL, k)
+        spec = []
+        for i, nm in enumerate(names):
+            kind = 'const' if i == 0 or r.random() < 0.3 else ('prior' if r.random() < 0.8 else 'sim')
+            cands = [s['name'] for s in spec if s['kind'] in ('const', 'prior')]
+            parents = [] if kind == 'const' else r.sample(cands, r.randint(0, min(3, len(cands))))
+            spec.append(dict(name=nm, kind=kind, dist=nm if r.random() < 0.5 else 'D' + nm, parents=parents,
+                             value=(100 + i) if kind == 'const' else None))
+        if not any(s['kind'] == 'prior' for s in spec):
+            spec.append(dict(name='pz', kind='prior', dist='pz', parents=[], value=None))
+        cur = spec
+        steps = []
+        nbuilds = 0
+        live = []           # (object index, params, dim) built from the current graph
+        last_params = None
+        counter = 0
+        for phase in range(r.randint(1, 3)):
+            if phase > 0:
+                for _ in range(r.randint(1, 2)):
+                    counter += 1
+                    ed = self._gen_edit(r, cur, counter)
+                    if ed is None:
+                        continue
+                    steps.append(dict(step='edit', edit=ed))
+                    cur = spec_apply(cur, ed)
+                    self.bump('hist:edit=%s' % ed['op'])
+                live = []
+            priors = [s['name'] for s in cur if s['kind'] == 'prior']
+            for b in range(r.randint(1, 2)):
+                # mostly the request of the previous build again (the interesting one after an edit)
+                if last_params is not None and b == 0 and r.random() < 0.75 and (last_params == 'default' or is_closed(cur, last_params)):
+                    params = last_params
+                elif r.random() < 0.25:
+                    params = 'default'
+                else:
+                    params = r.sample(priors, r.randint(1, len(priors)))
+                    if r.random() < 0.9:
+                        params = close_params(cur, params)
+                    else:
+                        self.bump('hist:unclosed-request')
+                    r.shuffle(params)
+                last_params = params
+                dim = len(priors) if params == 'default' else len(params)
+                steps.append(dict(step='build', params=params, fresh_equivalent=(phase > 0 and b == 0)))
+                live.append((nbuilds, dim))
+                nbuilds += 1
+            # calls on the live objects, interleaved
+            per_obj = {o: self._gen_calls(r, dim, r.randint(2, 5)) for o, dim in live}
+            order = [o for o, cs in per_obj.items() for _ in cs]
+            r.shuffle(order)
+            for o in order:
+                steps.append(dict(step='call', obj=o, **per_obj[o].pop(0)))
+        self.bump('history')
+        self.bump('hist:objects=%d' % nbuilds)
+        return dict(mode='history', spec=spec, steps=steps)
+
+    @staticmethod
+    def _answer(val):
+        """observed answer -> (shape, list of per-row terms)"""
+        if isinstance(val, TA):
+            return [len(val)], list(val.rows)
+        if isinstance(val, T):
+            return [], [val]
+        raise ValueError('answer of type %s: %r' % (type(val).__name__, val))
+
+    def _run_history(self, case):
+        from elfi.model.extensions import ModelPrior
+        rec = Recorder()
+        cur = case['spec']
+        m = build_row_model(cur, rec)
+        objs = []            # dict(prior, snet, params, calls, fresh)
+        problems = []
+        ntmp = 0
+        for st in case['steps']:
+            if st['step'] == 'edit':
+                ntmp += 1
+                apply_edit_live(m, st['edit'], rec, 'tmp%d' % ntmp)
+                cur = spec_apply(cur, st['edit'])
+            elif st['step'] == 'build':
+                P = None if st['params'] == 'default' else list(st['params'])
+                o = dict(snet=snet_of_model(m), calls=[], fresh=None)
+                try:
+                    o['prior'] = ModelPrior(m, parameter_names=P)
+                    o['params'] = list(o['prior'].parameter_names)
+                except Exception as e:
+                    o['prior'] = None
+                    o['params'] = P or []
+                    o['raised'] = '%s: %s' % (type(e).__name__, str(e)[:100])
+                    if P is None or is_closed(cur, P):
+                        problems.append('ModelPrior(%r) raised %s' % (P, o['raised']))
+                want = sorted(s['name'] for s in cur if s['kind'] == 'prior') if P is None else P
+                if o['prior'] is not None and o['params'] != want:
+                    problems.append('parameter_names %r, requested %r' % (o['params'], want))
+                if snet_of_model(m) != o['snet']:
+                    problems.append('building a ModelPrior changed the user model')
+                if st.get('fresh_equivalent') and o['prior'] is not None:
+                    # the same request on a model built from scratch with the edited specification
+                    rec2 = Recorder()
+                    m2 = build_row_model(cur, rec2)
+                    o['fresh'] = dict(prior=ModelPrior(m2, parameter_names=P), snet=snet_of_model(m2), calls=[])
+                objs.append(o)
+            else:
+                o = objs[st['obj']]
+                if o['prior'] is None:
+                    continue
+                for tgt in (o, o['fresh']):
+                    if tgt is None:
+                        continue
+                    x = make_input(st['shape'], st['data'], st['container'])
+                    try:
+                        val = tgt['prior']._evaluate_pdf(x, log=st['log'])
+                        ans = self._answer(val)
+                    except (ValueError, IndexError) as e:
+                        if 'answer of type' in str(e):
+                            raise
+                        val, ans = None, None
+                    tgt['calls'].append((st, ans))
+                    if st['poison'] and isinstance(val, TA):
+                        val.rows[:] = [POISON] * len(val.rows)          # the caller scribbles over the array it was given
+                if o['fresh'] is not None and o['calls'][-1][1] != o['fresh']['calls'][-1][1]:
+                    problems.append('answer %r differs from that of a freshly built equivalent model %r'
+                                    % (o['calls'][-1][1], o['fresh']['calls'][-1][1]))
+        epochs = []
+        summary = []
+        for o in objs:
+            if o['prior'] is None:
+                continue
+            for tgt in (o, o['fresh']):
+                if tgt is None:
+                    continue
+                cs = []
+                for st, ans in tgt['calls']:
+                    impl = 'None' if ans is None else '(Some (%s, %s))' % (clist([cnat(k) for k in ans[0]]), clist([cvalue(v) for v in ans[1]]))
+                    cs.append('{| c_log := %s; c_shape := %s; c_data := %s; c_impl := %s |}'
+                              % (cbool(st['log']), clist([cnat(k) for k in st['shape']]), clist([cz(z) for z in st['data']]), impl))
+                epochs.append('{| e_model := %s; e_params := %s; e_calls := %s |}' % (tgt['snet'], clist([cstr(p) for p in o['params']]), clist(cs)))
+                summary.append(dict(params=o['params'], answers=[None if a is None else [a[0], [jvalue(v) for v in a[1]]] for _, a in tgt['calls']]))
+        return dict(mode='history', coq='(History %s)' % clist(epochs), problems=problems, objects=summary)
+
+    # ---- histories, numeric ------------------------------------------------------------------------
+    def _gen_numparam(self, r, i, name=None, far=False):
+        dist = r.choice(list(DISTS))
+        args = DISTS[dist](r)
+        if far and dist != 'beta':
+            args[0] = args[0] + r.choice([-100.0, 100.0])       # a support disjoint from every earlier one
+        if i > 0 and dist in ('uniform', 'norm', 'expon') and r.random() < 0.5:
+            args[0] = 'p%d' % r.randrange(i)                    # parameter-valued location (lower index: acyclic)
+        return dict(name=name or 'p%d' % i, dist=dist, args=args)
+
+    @staticmethod
+    def _num_close(params, sub):
+        byname = {p['name']: p for p in params}
+        sub = list(sub)
+        todo = list(sub)
+        while todo:
+            for a in byname[todo.pop()]['args']:
+                if isinstance(a, str) and a not in sub:
+                    sub.append(a)
+                    todo.append(a)
+        return sub
+
+    def _gen_numcalls(self, r, ncalls):
+        calls = []
+        for j in range(ncalls):
+            kind = r.choice(['pdf', 'pdf', 'logpdf', 'logpdf', 'grad', 'rvs'])
+            u = r.random()
+            c = dict(kind=kind, seed=r.randrange(2 ** 31), pick=r.random(), n=r.randint(1, 4),
+                     where=r.choice(['inside', 'inside', 'outside', 'boundary']),
+                     container=r.choice(['array', 'array', 'list', 'fortran', 'strided']),
+                     mutate_result=r.random() < 0.5, scribble_input=r.random() < 0.3,
+                     size=r.choice([None, 1, 3, 5]))
+            if kind == 'rvs':
+                c['data'] = 'n/a'
+            elif j > 0 and u < 0.2:
+                c['data'] = 'repeat'                # the previous evaluation again (same array contents and shape)
+                c['kind'] = r.choice([calls[-1]['kind'], kind]) if calls[-1]['kind'] != 'rvs' else kind
+            elif j > 0 and u < 0.6:
+                c['data'] = 'same-bytes'            # the previous points, byte for byte, in another shape
+                c['kind'] = r.choice([calls[-1]['kind'], calls[-1]['kind'], kind]) if calls[-1]['kind'] != 'rvs' else kind
+            else:
+                c['data'] = 'new'
+            self.bump('numhist:call=%s' % c['kind'])
+            self.bump('numhist:data=%s' % c['data'])
+            calls.append(c)
+        return calls
+
+    def _gen_numhist(self, r):
+        k = r.randint(1, 4)
+        params = [self._gen_numparam(r, i) for i in range(k)]
+        cur = [dict(p, args=list(p['args'])) for p in params]
+        builds = []
+        last = None
+        for phase in range(r.randint(1, 3)):
+            edits = []
+            if phase > 0:
+                for _ in range(r.randint(1, 2)):
+                    u = r.random()
+                    if u < 0.7 or len(cur) >= 5:
+                        i = r.randrange(len(cur))
+                        idx = int(cur[i]['name'][1:])
+                        new = self._gen_numparam(r, 0, name=cur[i]['name'], far=r.random() < 0.3)
+                        lower = [q['name'] for q in cur if int(q['name'][1:]) < idx]
+                        if lower and new['dist'] != 'beta' and r.random() < 0.4:
+                            new['args'][0] = r.choice(lower)
+                        ed = dict(op='become', name=new['name'], dist=new['dist'], args=new['args'])
+                        cur[i] = dict(name=new['name'], dist=new['dist'], args=list(new['args']))
+                    else:
+                        idx = 1 + max(int(q['name'][1:]) for q in cur)
+                        new = self._gen_numparam(r, 0, name='p%d' % idx)
+                        if r.random() < 0.5 and new['dist'] != 'beta':
+                            new['args'][0] = r.choice([q['name'] for q in cur])
+                        ed = dict(op='add', name=new['name'], dist=new['dist'], args=new['args'])
+                        cur.append(dict(name=new['name'], dist=new['dist'], args=list(new['args'])))
+                    edits.append(ed)
+                    self.bump('numhist:edit=%s' % ed['op'])
+            names = [q['name'] for q in cur]
+            if last is not None and r.random() < 0.75 and set(self._num_close(cur, last)) == set(last):
+                sub = last                      # the request of the previous build again
+            elif r.random() < 0.3:
+                sub = None
+            else:
+                sub = self._num_close(cur, r.sample(names, r.randint(1, len(names))))
+                r.shuffle(sub)
+            last = sub if sub is not None else sorted(names)
+            builds.append(dict(edits=edits, subset=sub, calls=self._gen_numcalls(r, r.randint(3, 7))))
+        self.bump('numhist')
+        self.bump('numhist:builds=%d' % len(builds))
+        return dict(mode='numhist', params=params, builds=builds)
+
+    @staticmethod
+    def _build_num_model(params, name='np'):
+        import elfi
+        m = elfi.ElfiModel(name=name)
+        for p in sorted(params, key=lambda q: int(q['name'][1:])):
+            elfi.Prior(p['dist'], *[m[a] if isinstance(a, str) else a for a in p['args']], name=p['name'], model=m)
+        first = sorted(params, key=lambda q: int(q['name'][1:]))[0]['name']
+        elfi.Simulator(lambda *a, batch_size=1, random_state=None: random_state.normal(size=batch_size), m[first],
+                       name='sim', model=m, observed=np.array([0.0]))
+        return m
+
+    def _points(self, params, order, base, where, rs):
+        """evaluation points: draws moved outside / onto the boundary of one factor's support"""
+        byname = {p['name']: p for p in params}
+        dim = len(order)
+        pts = []
+        for row in base:
+            row = np.array(row, dtype=float)
+            j = rs.randint(dim)
+            pj = byname[order[j]]
+            if where == 'outside':
+                row[j] = {'uniform': -500.0, 'expon': -500.0, 'beta': 1.5, 'norm': 400.0}[pj['dist']]
+            elif where == 'boundary':
+                x = dict(zip(order, row))
+                loc = pj['args'][0]
+                loc = x[loc] if isinstance(loc, str) else loc
+                if pj['dist'] == 'uniform':
+                    row[j] = loc + (pj['args'][1] if rs.rand() < 0.5 else 0.0)
+                elif pj['dist'] == 'expon':
+                    row[j] = loc
+                elif pj['dist'] == 'beta':
+                    row[j] = 0.0 if rs.rand() < 0.5 else 1.0
+            pts.append(row)
+        return np.array(pts)
+
+    def _run_numhist(self, case):
+        import elfi
+        from elfi.model.extensions import ModelPrior
+        problems = []
+        cur = [dict(p, args=list(p['args'])) for p in case['params']]
+        m = self._build_num_model(cur)
+        ntmp = 0
+        ncalls = 0
+
+        def same(a, b):
+            a, b = np.asarray(a), np.asarray(b)
+            return a.shape == b.shape and a.dtype == b.dtype and bool(np.array_equal(a, b, equal_nan=True))
+
+        def close(a, b, tol=1e-9):
+            a, b = np.asarray(a, dtype=float), np.asarray(b, dtype=float)
+            if a.shape != b.shape:
+                return False
+            same_inf = (np.isinf(a) & np.isinf(b) & (np.sign(a) == np.sign(b)))
+            with np.errstate(invalid='ignore'):
+                return bool(np.all(same_inf | (np.abs(a - b) <= tol * np.maximum(1.0, np.abs(b)))))
+
+        for bi, b in enumerate(case['builds']):
+            for ed in b['edits']:
+                args = [m[a] if isinstance(a, str) else a for a in ed['args']]
+                if ed['op'] == 'become':
+                    ntmp += 1
+                    m[ed['name']].become(elfi.Prior(ed['dist'], *args, name='tmp%d' % ntmp, model=m))
+                    cur = [dict(name=ed['name'], dist=ed['dist'], args=list(ed['args'])) if q['name'] == ed['name'] else q for q in cur]
+                else:
+                    elfi.Prior(ed['dist'], *args, name=ed['name'], model=m)
+                    cur.append(dict(name=ed['name'], dist=ed['dist'], args=list(ed['args'])))
+            sub = b['subset']
+            prior = ModelPrior(m, parameter_names=None if sub is None else list(sub))
+            order = list(prior.parameter_names)
+            want = sorted(q['name'] for q in cur) if sub is None else list(sub)
+            if order != want:
+                problems.append('build %d: parameter_names %r, requested %r' % (bi, order, want))
+                break
+            dim = len(order)
+            equivalent = ModelPrior(self._build_num_model(cur, name='eq'), parameter_names=list(order)) if b['edits'] else None
+            tag = 'build %d (after edits %r, parameters %r)' % (bi, b['edits'], order)
+            prev = None          # (points (n, dim), shape handed over)
+            for ci, c in enumerate(b['calls']):
+                ncalls += 1
+                rs = np.random.RandomState(c['seed'])
+                fresh = ModelPrior(m.copy(), parameter_names=list(order))      # the reference: an object nobody has called yet
+                where = '%s, call %d %s' % (tag, ci, {k: c[k] for k in ('kind', 'data', 'container')})
+                if c['kind'] == 'rvs':
+                    size = c['size']
+                    got = prior.rvs(size=size, random_state=np.random.RandomState(c['seed']))
+                    ref = fresh.rvs(size=size, random_state=np.random.RandomState(c['seed']))
+                    exp_shape = (() if dim == 1 else (dim,)) if size is None else ((size,) if dim == 1 else (size, dim))
+                    if np.shape(got) != exp_shape:
+                        problems.append('%s: rvs(size=%r) has shape %r for dim %d' % (where, size, np.shape(got), dim))
+                        continue
+                    if not same(got, ref):
+                        problems.append('%s: rvs(size=%r) %r differs from the draws of a fresh ModelPrior of the same model with the same '
+                                        'random state %r' % (where, size, np.asarray(got).tolist(), np.asarray(ref).tolist()))
+                    rows = np.asarray(got, dtype=float).reshape(-1, dim)
+                    dens = np.array([self._direct(cur, order, dict(zip(order, row)), False) for row in rows])
+                    if not np.all(dens > 0):
+                        problems.append('%s: a draw %r has density %r under the conditional densities of the model' % (where, rows.tolist(), dens.tolist()))
+                    if c['mutate_result'] and isinstance(got, np.ndarray) and got.ndim > 0:
+                        got[...] = -12345.0
+                    continue
+                # ---- the points and the form they are handed over in
+                forms = None
+                if c['data'] in ('repeat', 'same-bytes') and prev is not None:
+                    pts, pshape = prev
+                    n = len(pts)
+                    if c['data'] == 'repeat':
+                        shape = pshape
+                    else:
+                        if dim == 1:
+                            forms = [(n,), (n, 1)] + ([()] if n == 1 else [])
+                        else:
+                            forms = [(n, dim)] + ([(dim,)] if n == 1 else [])
+                        forms = [f for f in forms if f != pshape] or [pshape]
+                        shape = forms[int(c['pick'] * len(forms))]
+                else:
+                    n = c['n']
+                    base = np.asarray(fresh.rvs(size=n, random_state=rs), dtype=float).reshape(n, dim)
+                    pts = self._points(cur, order, base, c['where'], rs)
+                    if dim == 1:
+                        forms = [(), (n,), (n, 1)] if n == 1 else [(n,), (n, 1)]
+                    else:
+                        forms = [(dim,), (1, dim)] if n == 1 else [(n, dim)]
+                    shape = forms[int(c['pick'] * len(forms))]
+                x = make_input(list(shape), pts.reshape(-1).tolist(), c['container'])
+                x_ref = make_input(list(shape), pts.reshape(-1).tolist(), c['container'])
+                x_before = np.array(x, dtype=float, copy=True)
+                single = (len(shape) == 0) or (len(shape) == 1 and dim > 1)
+                exp_shape = () if single else (n,)
+                self.bump('numhist:shape-ndim=%d' % len(shape))
+                with np.errstate(all='ignore'):
+                    if c['kind'] == 'grad':
+                        got = prior.gradient_logpdf(x)
+                        ref = fresh.gradient_logpdf(x_ref)
+                    else:
+                        got = getattr(prior, c['kind'])(x)
+                        ref = getattr(fresh, c['kind'])(x_ref)
+                prev = (pts, shape)
+                if not same(np.array(x, dtype=float), x_before):
+                    problems.append('%s: the array handed over was modified' % where)
+                if not same(got, ref):
+                    problems.append('%s: %s of input shape %r gives %r (shape %r); a fresh ModelPrior of the same model gives %r (shape %r)'
+                                    % (where, c['kind'], shape, np.asarray(got).tolist(), np.shape(got), np.asarray(ref).tolist(), np.shape(ref)))
+                if c['kind'] != 'grad':
+                    log = c['kind'] == 'logpdf'
+                    with np.errstate(all='ignore'):
+                        exp = np.array([self._direct(cur, order, dict(zip(order, row)), log) for row in pts])
+                    exp = exp[0] if single else exp
+                    if np.shape(got) != exp_shape:
+                        problems.append('%s: %s of %d point(s) given with shape %r has shape %r, expected %r'
+                                        % (where, c['kind'], n, shape, np.shape(got), exp_shape))
+                    elif not close(got, exp):
+                        problems.append('%s: %s %r != product/sum of the conditional densities %r at %r'
+                                        % (where, c['kind'], np.asarray(got).tolist(), np.asarray(exp).tolist(), pts.tolist()))
+                    if equivalent is not None:
+                        with np.errstate(all='ignore'):
+                            eq = getattr(equivalent, c['kind'])(make_input(list(shape), pts.reshape(-1).tolist(), c['container']))
+                        if not close(got, eq, tol=1e-12):
+                            problems.append('%s: %s %r differs from %r given by a ModelPrior of a freshly built equivalent model'
+                                            % (where, c['kind'], np.asarray(got).tolist(), np.asarray(eq).tolist()))
+                if c['mutate_result'] and isinstance(got, np.ndarray) and got.ndim > 0:
+                    got[...] = -12345.0              # the caller reuses the array it was given
+                if c['scribble_input'] and isinstance(x, np.ndarray) and x.ndim > 0:
+                    x[...] = 0.25                    # ... and the buffer it handed over
+        return dict(mode='numhist', problems=problems, n_calls=ncalls, n_builds=len(case['builds']))
+
     # ---- driver ------------------------------------------------------------------------------------
     def run_impl(self, case):
         if case['mode'] == 'symbolic':
             return self._run_symbolic(case)
+        if case['mode'] == 'history':
+            return self._run_history(case)
+        if case['mode'] == 'numhist':
+            return self._run_numhist(case)
         return self._run_numeric(case)
 
     def py_check(self, case, out):
-        return [('numeric', p) for p in out.get('problems', [])[:3]]
+        clause = {'numhist': 'history-numeric', 'history': 'history-symbolic'}.get(case['mode'], 'numeric')
+        return [(clause, p) for p in out.get('problems', [])[:3]]
 
     def nontrivial(self, case, out):
         if case['mode'] == 'symbolic':
             if len(case['params']) < 2:
+                return None
+        elif case['mode'] == 'history':
+            calls = [s for s in case['steps'] if s['step'] == 'call']
+            if not any(s['step'] == 'edit' for s in case['steps']) and len(calls) < 2:
+                return None
+        elif case['mode'] == 'numhist':
+            if out.get('n_calls', 0) < 2:
                 return None
         else:
             if len(out.get('order', [])) < 2 and not any(isinstance(a, str) for p in case['params'] for a in p['args']):
